@@ -1,4 +1,5 @@
 import SafeC.Proofs.AccQueryEntry
+import SafeC.Proofs.C02Glue
 import SafeC.Props.C02Query
 /-!
 # C02 for the string searches and comparisons of `Models/Query.lean`
@@ -28,27 +29,6 @@ counter (known finding `read-before-bound`), the set/needle scans read `src[slen
 -/
 namespace SafeC.Props.C02
 open SafeC Gen
-
-/-- the call returns and records no stray access -/
-def Runs {α} (p : Prog α) (st : St) : Prop := ∃ r st', exec p st = .ok (r, st') ∧ NoStray st st'
-
-/-- mapped and declared readable -/
-def Rd (st : St) (a : Nat) : Prop := st.mapped a = true ∧ st.rd a = true
-
-theorem runs_of_AccD {α} {p : Prog α} {Q : α → Prop} {st : St} (h : AccD st.data (Rd st) p Q) : Runs p st := by
-  obtain ⟨r, st', he, _, hs, _⟩ := h.sound st rfl (fun _ h => h)
-  exact ⟨r, st', he, hs⟩
-
-/-- a declared string (cut at `n`) that has its terminator inside the cut is readable at every cut -/
-theorem StrRd.of_term {st : St} {p n : Nat} (h : StrRd st p n) (ht : ∃ i, i < n ∧ st.data (p+i) = 0) (m : Nat) :
-    StrRd st p m := by
-  intro a hs
-  obtain ⟨i, hi, h0⟩ := ht
-  obtain ⟨h1, h2⟩ := hs.of_term h0
-  exact h a ⟨hs.1, by omega, hs.2.2⟩
-
-/-- a terminator among the first `n` cells at `p` -/
-def Term (st : St) (p n : Nat) : Prop := ∃ i, i < n ∧ st.data (p+i) = 0
 
 /-! ## strcmp_s, strcasecmp_s -/
 
@@ -203,23 +183,6 @@ theorem strprefix_s_C02' (dest dmax src : Nat) (db : Bos) (st : St)
   strprefix_s_C02 dest dmax src db st (fun h => StrRd.of_RD (hd h) (Nat.le_refl _)) (fun h => hs h _)
 
 /-! ## witnesses: one per defect class -/
-
-/-- the fault a run ended with, if any -/
-def faultOf {α} : Except Fault α → Option Fault
-  | .error f => some f
-  | .ok _ => none
-
-theorem faultOf_ok {α} {x : Except Fault α} {f : Fault} (h : faultOf x = some f) : x = .error f := by
-  cases x with
-  | error g => simp only [faultOf, Option.some.injEq] at h; rw [h]
-  | ok _ => simp [faultOf] at h
-
-/-- cells `lo₁ ≤ a < hi₁` and `lo₂ ≤ a < hi₂` mapped and readable, nothing else -/
-def win (f : Nat → Nat) (lo₁ hi₁ lo₂ hi₂ : Nat) : St :=
-  { data := f
-    mapped := fun a => decide ((lo₁ ≤ a ∧ a < hi₁) ∨ (lo₂ ≤ a ∧ a < hi₂))
-    rd := fun a => decide ((lo₁ ≤ a ∧ a < hi₁) ∨ (lo₂ ≤ a ∧ a < hi₂))
-    wr := fun _ => false }
 
 /-- class `read-before-bound` (`while (*dest && *src && dmax)`): dest = {'a','b'} exactly fills its 2 declared
 cells, src = "ab": the loop header evaluates `dest[2]` — the first unmapped cell — before it sees `dmax == 0` -/
